@@ -30,6 +30,12 @@ def _real_kernels(name, args):
     import verde.spline as sp
     import verde.vector as vec
     import verde as vd
+    if name == "powerComb":
+        import verde.trend as tr
+        try:
+            return [float(v) for c in tr.polynomial_power_combinations(int(args[0])) for v in c]
+        except ValueError:
+            return [-1.0]
     a = [_f(t) for t in args]
     with np.errstate(all="ignore"):
         if name == "greensJit":
@@ -124,7 +130,7 @@ def search(kind, limit=5):
     """Returns (found, stats).  found: list of dicts with definition, inputs, gen, model, impl."""
     stats = {"probes": 0, "gen_differs_from_model": 0, "real_code_differs_too": 0, "error": None}
 
-    r = C._locked(["sh", "-c", "lake build VerdeModel.Gen.Kernels VerdeModel.Gen.Coords >&2 && "
+    r = C._locked(["sh", "-c", "lake build VerdeModel.Gen.Kernels VerdeModel.Gen.Coords VerdeModel.Gen.Trend >&2 && "
                    f"lake env lean --run GenEval.lean {kind}"], C.LEAN_DIR, 1500)
     if r.returncode != 0:
         stats["error"] = "translated definitions do not evaluate: " + (r.stdout + r.stderr)[-800:]
